@@ -287,3 +287,27 @@ Theorem c02_exact_on_update_and_merge_incl_derived_source : forall noise e d,
   script_pairs e false [] [r_dml noise d] = dml_pairs (e_cfg e) d.
 Proof. exact lemma_B_dml2. Qed.
 Print Assumptions c02_exact_on_update_and_merge_incl_derived_source.
+
+(** SELECT .. INTO at column level = the CTAS with the same select (Tree/LemmaBInto.v) *)
+From SV Require Import Tree.LemmaBInto.
+Theorem c02_exact_on_select_into : forall noise e t items from cj,
+  noise_ok noise = true -> env_ok e = true ->
+  let s := SCtas t (QSelect items from cj None) in
+  stmt_ok s = true -> sshape s = true -> colshape s = true -> sel_tables_syntactic s = true ->
+  script_pairs e false [] [r_dml noise (DSelectInto t items from cj None)] = spec_pairs (e_cfg e) s.
+Proof. exact lemma_B_select_into. Qed.
+Print Assumptions c02_exact_on_select_into.
+
+(** CTE chains at column level (Tree/LemmaBChain{,2}.v): length 1 proved through the chain renderer; the general statement under
+    chain_cols_ok is REFUTED (K-C02-14: a literal item of a CTE definition is reported as an end-to-end source) and repaired by the
+    guard defs_have_sources, which is tested (lengths 2-4), not proved *)
+From SV Require Import Tree.RenderChain Tree.LemmaAChain Tree.LemmaBChain Tree.LemmaBChain2.
+Theorem c02_exact_on_one_cte_chain_rendering : forall noise e s,
+  noise_ok noise = true -> env_ok e = true -> one_cte_shape s = true ->
+  script_pairs e false [] [r_stmt_c noise s] = spec_pairs (e_cfg e) s.
+Proof. exact lemma_B_chain_one. Qed.
+Print Assumptions c02_exact_on_one_cte_chain_rendering.
+
+Theorem c02_cte_chain_columns_refuted : ~ lemma_B_chain_statement.
+Proof. exact lemma_B_chain_statement_refuted. Qed.
+Print Assumptions c02_cte_chain_columns_refuted.
